@@ -117,6 +117,13 @@ class C07(Check):
               any(c for row in (q['coef'] or []) for c in row)]
         self.cheb_at = (ch[0] + 1) if ch else None
         self.nz = None
+        # largest absorption coefficient 4 pi k / lambda (1/mm) among the media of this lens
+        try:
+            w_ = min(spec['wls'])
+            kmax = max([GL.mat_k(q['mat'], w_, 0.0) or 0.0 for q in spec['surfs'] if q['mat']['kind'] not in ('mirror',)] + [0.0])
+        except Exception:  # noqa
+            kmax = 1e-4
+        self.alpha = 4 * math.pi * kmax / (w_ * 1e-3) if spec['wls'] else 0.0
         try:
             return getattr(self, 'check_' + case['kind'])(case, out)
         except ValueError as e:
@@ -160,8 +167,9 @@ class C07(Check):
         nz = self.nz
         self.nz = None
         for k in keys:
-            if nz is not None and k != 'intensity' and a[k].shape[-1] == nz[0].shape[0]:
-                extra = nz[0] if k in ('x', 'y', 'z', 'opd') else nz[1]
+            if nz is not None and a[k].shape[-1] == nz[0].shape[0]:
+                # (a displaced point also changes the absorbing path: dI <= alpha x displacement)
+                extra = nz[0] if k in ('x', 'y', 'z', 'opd') else (nz[0] * self.alpha if k == 'intensity' else nz[1])
             else:
                 extra = 0.0
             x, y = a[k], b[k]
